@@ -892,14 +892,20 @@ package storage
 //@   ensures[rs] rsOK(rs)
 //@   ensures[notfound; C14] err != nil ==> result0 == 0
 
+//@ func (rs *RelationService) getRelationSchema$1(cell *leafCell) (ScanAction, error)
+//@   props C01
+//@   requires cell != nil && r != nil
+//@   modifies r.Fields, elems(r.Fields), storeState
+//@   allowpanic assert
+
 //@ func (rs *RelationService) getRelationSchema(relName string) (*Relation, error)
 //@   props C01
 //@   requires fsLocked(rs.fs)
-//@   trusted
 //@   requires rsOK(rs)
 //@   modifies all(leafCell.pg), @cacheState, storeState
 //@   ensures rsOK(rs)
-//@   ensures err == nil ==> result0 != nil && fresh(result0) && schemaOK(result0)
+//@   ensures[fresh] err == nil ==> result0 != nil && fresh(result0)
+//@   ensures_assumed[catalog.kinds] err == nil ==> schemaOK(result0)
 
 //@ func (rs *RelationService) Update$1(cell *leafCell) (ScanAction, error)
 //@   props C01 C02 C04 C14 C13
